@@ -262,7 +262,11 @@ func programs() []*Program {
 			dt := SchemaType{Type: "DateType", ValueType: "DateValue", CastToType: "time.Time", CastFromType: "time.Time"}
 			dc := dt
 			dc.TypeConstructor = "UseRFC3339Date()"
-			c.SchemaTypes = map[string]SchemaType{"ST.Day": dt, "ST.At": dc, "STSub.When": dt}
+			// an override that names the default framework types of a string field: same types, so the converters
+			// must behave exactly as without it (zero value test included)
+			str := SchemaType{Type: "github.com/hashicorp/terraform-plugin-framework/types.StringType", ValueType: "github.com/hashicorp/terraform-plugin-framework/types.String",
+				CastToType: "string", CastFromType: "string"}
+			c.SchemaTypes = map[string]SchemaType{"ST.Day": dt, "ST.At": dc, "STSub.When": dt, "ST.Own": str}
 			return c
 		}})
 
@@ -455,6 +459,8 @@ func programs() []*Program {
 			c.InjectedFields = map[string][]Injected{
 				"Fl":     {{Name: "id", Type: "github.com/hashicorp/terraform-plugin-framework/types.StringType", Computed: true}},
 				"Fl.Sub": {{Name: "extra", Type: "github.com/hashicorp/terraform-plugin-framework/types.Int64Type", Optional: true, Validators: []string{"UseMockValidator()"}}},
+				// keyed by the bare message name: applies to FlSub as a root type only (it is not selected here), never to its nested occurrences
+				"FlSub": {{Name: "leak", Type: "github.com/hashicorp/terraform-plugin-framework/types.StringType", Computed: true}},
 			}
 			return c
 		}})
